@@ -57,6 +57,8 @@ impl Thread {
 pub struct Scope<'scope, 'env: 'scope> {
     num_running_threads: AtomicUsize,
     main_task: TaskId,
+    // Whether the main task is blocked in `scope` waiting for the scoped threads to finish
+    main_waiting: AtomicBool,
     scope: PhantomData<&'scope mut &'scope ()>,
     env: PhantomData<&'env mut &'env ()>,
 }
@@ -96,7 +98,9 @@ impl<'scope> Scope<'scope, '_> {
 
                 finished.store(true, Ordering::Relaxed);
 
-                if self.num_running_threads.fetch_sub(1, Ordering::Relaxed) == 1 {
+                if self.num_running_threads.fetch_sub(1, Ordering::Relaxed) == 1
+                    && self.main_waiting.load(Ordering::Relaxed)
+                {
                     ExecutionState::with(|s| s.get_mut(self.main_task).unblock());
                 }
 
@@ -128,6 +132,7 @@ where
     let scope = Scope {
         num_running_threads: AtomicUsize::new(0),
         main_task: ExecutionState::with(|s| s.current().id()),
+        main_waiting: AtomicBool::new(false),
         env: PhantomData,
         scope: PhantomData,
     };
@@ -136,6 +141,7 @@ where
 
     if scope.num_running_threads.load(Ordering::Relaxed) != 0 {
         tracing::info!("thread blocked, waiting for completion of scoped threads");
+        scope.main_waiting.store(true, Ordering::Relaxed);
         ExecutionState::with(|s| s.current_mut().block(false));
         thread::switch();
     }
